@@ -365,6 +365,31 @@ def stepC07 (ts : List String) : String :=
     | _, _, _, _, _, _, _, _ => "bad-op"
   | _ => "bad-op"
 
+def rat? (s : String) : Option Rat :=
+  match s.splitOn "/" with
+  | [n] => n.toInt?.map (fun z => (z : Rat))
+  | [n, d] => do let n ← n.toInt?; let d ← d.toNat?; if d = 0 then none else pure (mkRat n d)
+  | _ => none
+
+def parseParams : List String → Option (List (String × Rat))
+  | [] => some []
+  | k :: v :: rest => do let v ← rat? v; let r ← parseParams rest; pure ((k, v) :: r)
+  | _ => none
+
+/-- `C08 site <name> fch1 foff tsamp tstart dm nchans nsamples nbits [param value]…` (rationals `p/q`) -/
+def stepC08 (ts : List String) : String :=
+  match ts with
+  | "site" :: name :: a :: b :: c :: d :: e :: f :: g :: h :: rest =>
+    match rat? a, rat? b, rat? c, rat? d, rat? e, rat? f, rat? g, rat? h, parseParams rest with
+    | some a, some b, some c, some d, some e, some f, some g, some h, some ps =>
+      match Generated.HeaderUpdates.applySite name ⟨a, b, c, d, e, f, g, h⟩ ps with
+      | some o => s!"ok {showRat o.fch1} {showRat o.foff} {showRat o.tsamp} {showRat o.tstart} {showRat o.dm} {showRat o.nchans} {showRat o.nsamples} {showRat o.nbits}"
+      | none => "err UnknownSite"
+    | _, _, _, _, _, _, _, _, _ => "bad-op"
+  | ["dropped"] =>
+    "ok " ++ " ".intercalate (Generated.HeaderUpdates.allDropped.map (fun (n, l) => s!"{n}:{l.length}"))
+  | _ => "bad-op"
+
 def step (line : String) : String :=
   match (line.trimAscii.toString.splitOn " ").filter (· ≠ "") with
   | "C03" :: rest => stepC03 rest
@@ -373,6 +398,7 @@ def step (line : String) : String :=
   | "C05" :: rest => stepC05 rest
   | "C06" :: rest => stepC06 rest
   | "C07" :: rest => stepC07 rest
+  | "C08" :: rest => stepC08 rest
   | "C04" :: rest => stepC04 rest
   | "C10" :: rest => stepC10 rest
   | _ => "bad-op"
